@@ -222,6 +222,18 @@ def run(F, R, tier):
                         shr = True
                 if not shr:
                     bounded.discard((p, q))
+        # call-site gating: `if visited.insert(x) { recurse(.., visited) }` guards that edge as well
+        for p in rest:
+            b = F.by_path[p][0]
+            own = {param_lid(b, i) for i in visited_params(F, b)}
+            own.discard(None)
+            per_target = {}
+            for call, tgt in call_edges(F, b, cset):
+                gated = any(x.kind == "cond" and x.pol and x.node.get("k") == "MethodCall" and x.node["name"] == "insert" and peel(x.node["recv"]).get("lid") in own for x in guards_at(F, call))
+                per_target.setdefault(tgt, []).append(gated)
+            for tgt, flags in per_target.items():
+                if flags and all(flags):
+                    bounded.add((p, tgt))
         sub = {p: [q for q in g.get(p, ()) if q in rest and (p, q) not in bounded] for p in rest}
         unguarded = has_cycle(sub, rest)
         R.ob("C16-b", "every cycle of SCC %s passes a visited-set guard" % label, not unguarded,
